@@ -480,7 +480,11 @@ def stat_oracle(c, a, rate, ll_pub):
         check('AIC', got['AIC'], ob['AIC'], 2 * sc + 2 * abs(edof), '-2 sum poisson.logpmf(y, e*rate) + 2 edof')
         check('AICc', got['AICc'], ob['AICc'], 2 * sc + abs(ob['AICc'] - ob['AIC']) + 2 * abs(edof),
               '-2 sum poisson.logpmf(y, e*rate) + 2 edof + 2 (edof+1)(edof+2)/(n-edof-2)')
-    check('UBRE', got['UBRE'], ob['UBRE'], abs(dev) / n + abs(ob['UBRE']) + 1e-300,
+    # rounding floor of the deviance itself (log(y / mu) carries an absolute error of eps, multiplied by w y: counts of 1e12)
+    with np.errstate(all='ignore'):
+        dev_floor = 16 * np.finfo(float).eps * float(np.sum(weff * (np.abs(y) + np.abs(e32 * rate)))) / (10 * reltol)
+    dev_floor = dev_floor if np.isfinite(dev_floor) else 0.0
+    check('UBRE', got['UBRE'], ob['UBRE'], abs(dev) / n + abs(ob['UBRE']) + dev_floor / n + 1e-300,
           'deviance of the counts at e*rate / n + 2 gamma edof / n')
     # pseudo R^2: the null model is the constant rate mean(y/e) (documented: "the null model is the unweighted mean")
     null_rate = float(np.mean(y / e32)) * np.ones(n)
@@ -499,7 +503,7 @@ def stat_oracle(c, a, rate, ll_pub):
             else:
                 info['mcfadden_model_only'] = (got['McFadden'], 1.0 - ll / ll0)
         if np.isfinite(dev0) and dev0 > 0:
-            check('explained_deviance', got['explained_deviance'], 1.0 - dev / dev0, abs(dev / dev0) + 1.0,
+            check('explained_deviance', got['explained_deviance'], 1.0 - dev / dev0, abs(dev / dev0) + 1.0 + dev_floor / abs(dev0),
                   '1 - deviance(counts at e*rate) / deviance(counts at e*mean(y/e))')
     info['got'] = got
     info['ll_scale'] = sc
@@ -573,6 +577,12 @@ def eval_fit_case(pygam, c, max_iter, model_line):
     # (no mask: the statistic is the plain weighted sum, whatever the magnitude of the weights w*e; a zero weight gives a zero term)
     dev_counts = float(np.sum(eff_weights(w64, e64) * np_poisson_dev(c['y'], e32 * rate)))
     d_dev = _maxrel([_num(a.statistics_.get('deviance'))], [dev_counts])
+    # rounding floor of ANY evaluation of the Poisson deviance: log(y / mu) carries an absolute error of eps, multiplied by
+    # w y — for counts of 1e12 (exposures in a large unit) that is 1e-3 per observation, whatever the formulation
+    with np.errstate(all='ignore'):
+        dev_floor = 16 * np.finfo(float).eps * float(np.sum(eff_weights(w64, e64) * (np.abs(c['y']) + np.abs(e32 * rate))))
+    if np.isfinite(dev_floor) and abs(_num(a.statistics_.get('deviance')) - dev_counts) <= dev_floor:
+        d_dev = 0.0
     out['d_dev'] = d_dev
     # --- statistics_['loglikelihood'] is the public loglikelihood at the training data
     ll_stat = _num(a.statistics_.get('loglikelihood'))
